@@ -49,13 +49,20 @@ var preludeProg = goja.MustCompile("prelude", jsPrelude, false)
 type Obs struct {
 	Log, Kind, Val string
 	Interrupted    bool
+	EngineCrash    bool
 	SyntaxError    bool
 }
 
 func (o Obs) String() string { return o.Log + " | " + o.Kind + " | " + o.Val }
 
 // RunJS executes code in a fresh realm.
-func RunJS(code string) Obs {
+func RunJS(code string) (obs Obs) {
+	defer func() {
+		// a crash of the reference engine itself (goja panics on some exotic escapes): no verdict
+		if r := recover(); r != nil {
+			obs = Obs{Kind: "throw:SyntaxError", SyntaxError: true, EngineCrash: true}
+		}
+	}()
 	vm := goja.New()
 	if _, err := vm.RunProgram(preludeProg); err != nil {
 		return Obs{Kind: "PRELUDE " + err.Error()}
